@@ -886,7 +886,7 @@
 #endif
 
 #ifndef SEXP_MAX_VECTOR_LENGTH
-#define SEXP_MAX_VECTOR_LENGTH (SEXP_MAX_FIXNUM >> 1)
+#define SEXP_MAX_VECTOR_LENGTH (SEXP_MAX_FIXNUM >> 2)
 #endif
 
 #ifndef SEXP_DEFAULT_EQUAL_DEPTH
